@@ -45,7 +45,7 @@ class FakeSharedMemory:
 
 
 class World:
-    def __init__(self, capacity):
+    def __init__(self, capacity, available=1 << 40):
         import cascade.shm.dataset as dataset
         import cascade.shm.disk as disk
         import multiprocessing.resource_tracker as rt
@@ -55,7 +55,7 @@ class World:
         dataset.SharedMemory = FakeSharedMemory
         disk.SharedMemory = FakeSharedMemory
         rt.unregister = lambda *a, **k: None
-        dataset.get_capacity = lambda: 1 << 40
+        dataset.get_capacity = lambda: available  # what /dev/shm offers: a configured capacity above it is trimmed
         self.now = 10 ** 9
         dataset.time.time_ns = lambda: self.now
         self.pending = []  # (kind, shmid, size, callback)
@@ -75,8 +75,8 @@ class World:
             def atexit(self):
                 self.root.cleanup()
         dataset.disk.Disk = FakeDisk
-        self.capacity = capacity
         self.m = dataset.Manager("p", capacity)
+        self.capacity = min(capacity, available) if capacity else available  # ground truth: the store can never hold more than /dev/shm offers
         # ground truth
         self.written = {}  # key -> bytes the writer put (only once finished)
         self.granted = {}  # key -> (shmid, size) handed out by add
@@ -223,6 +223,15 @@ def step(w: World, op, failures):
                 w.stale_completed = True  # known finding: the job's callback acts on a dataset that was purged (and maybe re-added)
             if ok:
                 w.m.disk._page_out(shmid, cb)  # REAL disk code: segment -> file, unlink, callback
+            elif ok is None:
+                # the write itself fails (spill directory gone): the REAL _page_out runs into the error and reports it
+                import types
+                real_root = w.m.disk.root
+                w.m.disk.root = types.SimpleNamespace(name=real_root.name + "/gone", cleanup=real_root.cleanup)
+                try:
+                    w.m.disk._page_out(shmid, cb)
+                finally:
+                    w.m.disk.root = real_root
             else:
                 cb(False)
         else:
@@ -279,6 +288,8 @@ def enabled_ops(w: World, keys, sizes):
     for i in range(len(w.pending)):
         ops.append(("complete", i, True))
         ops.append(("complete", i, False))
+        if w.pending[i][0] == "out":
+            ops.append(("complete", i, None))  # page-out whose write to the spill file fails inside the real Disk code
     ops.append(("tick",))
     return ops
 
@@ -305,11 +316,25 @@ def run_sequence(capacity, choose, length, keys, sizes):
             check_invariants(w, trace, failures, d)
             if any(f[3] == "other" for f in failures) or len(failures) > 3:
                 break
+        _stuck(w, failures)
         if not failures:
             liveness(w, failures, trace)
     finally:
         w.close()
     return trace, failures
+
+
+def _stuck(w, failures):
+    """C09 last sentence (safety core): a dataset left in 'paging_out' with no page-out job pending can never be evicted, read or
+    reclaimed - every request that needs its memory is answered 'wait' for ever"""
+    if w.stale_completed:
+        return
+    stuck = [k for k, dsx in w.m.datasets.items() if dsx.status.name == "paging_out" and not any(p[0] == "out" and p[1] == dsx.shmid for p in w.pending)]
+    if stuck:
+        # known finding: a FAILED page-out of a dataset that still has a (stale) reader registered - the callback's purge is deferred
+        # because of the reader, and the reader's close is rejected because the status is no longer in_memory
+        cls = "failed-pageout-with-stale-reader" if all(w.readers.get(k) for k in stuck) else "other"
+        failures.append(("C09", "C09/evictable-request-eventually-granted", f"datasets {stuck} are left in 'paging_out' with no page-out job pending: their memory can never be reclaimed", cls))
 
 
 def liveness(w: World, failures, trace):
@@ -360,8 +385,8 @@ SCRIPTS = [
 ]
 
 
-def run_script(cap, script):
-    w = World(cap)
+def run_script(cap, script, available=1 << 40):
+    w = World(cap, available)
     failures, trace = [], []
     try:
         for op in script:
@@ -377,6 +402,9 @@ def run_script(cap, script):
             track_page_in(w)
             trace.append(d)
             check_invariants(w, trace, failures, d)
+        _stuck(w, failures)
+        if not failures:
+            liveness(w, failures, trace)
     finally:
         w.close()
     return trace, failures
@@ -393,6 +421,18 @@ def explore(out, prop, tier, seed):
         trace, fails = run_script(cap, script)
         cases += 1
         _record(trace, fails, prop, failures_all, seen, distinct, cap)
+    # a configured capacity above what /dev/shm offers is trimmed: the trimmed value is THE capacity
+    for cap, avail in ((8, 4), (5, 4), (4, 8), (0, 4)):
+        trace, fails = run_script(cap, [("add", "a", 3), ("add", "b", 3), ("fin_write", "a"), ("add", "b", 1), ("add", "c", 4), ("get", "a")], available=avail)
+        cases += 1
+        _record(trace, fails, prop, failures_all, seen, distinct, (cap, avail))
+    # a page-out whose write fails must give the memory back (liveness probe follows every script)
+    for script in ([("add", "a", 3), ("fin_write", "a"), ("add", "b", 3), ("complete", 0, None), ("add", "b", 3), ("add", "b", 3)],
+                   [("add", "a", 2), ("fin_write", "a"), ("add", "b", 2), ("fin_write", "b"), ("add", "c", 4), ("complete", 0, None), ("complete", 0, True), ("add", "c", 4)]):
+        w = None
+        trace, fails = run_script(4, script)
+        cases += 1
+        _record(trace, fails, prop, failures_all, seen, distinct, 4)
     # exhaustive to depth D over enabled operations (depth-first on choice prefixes)
     depth = 4 if tier == "quick" else 5
     for cap in ((4,) if tier == "quick" else (4, 1)):
